@@ -334,8 +334,27 @@ impl Prop for Mutated {
     const BYTES: usize = 320;
     fn gen(u: &mut Unstructured<'_>) -> arbitrary::Result<Case> {
         const HOSTILE: &[&str] = &["0", "1", "9", "-", "+", ":", ".", "a", "Z", "T", "'", "''", "é", "日", "😀", " ", "\u{0}", "\t", "\u{a0}", "/", "*", ","];
-        let family = u.int_in_range(0..=11u8)?;
+        let family = u.int_in_range(0..=12u8)?;
         let (api, mut pattern, mut input): (u8, String, String) = match family {
+            12 => {
+                // a cron expression with one long junk value (a few ASCII characters, then a run of 2-,
+                // 3- or 4-byte characters) as plain value, list member, range end or step: whatever
+                // cuts or echoes the rejected value at a fixed byte position meets a character boundary
+                let mut fields: Vec<String> = ["0", "0", "1", "*", "*"].iter().map(|f| f.to_string()).collect();
+                let k = *u.choose(&[3usize, 3, 4, 4, 0, 1, 2])?;
+                let lead = *u.choose(&["", "x", "xy", "jan", "1", "12", "mon", "*/"])?;
+                let ch = *u.choose(&["é", "ß", "日", "€", "😀", "𝄞"])?;
+                let n = u.int_in_range(3..=60usize)?;
+                let junk = format!("{}{}", lead, ch.repeat(n));
+                fields[k] = match u.int_in_range(0..=4u8)? {
+                    0 => junk,
+                    1 => format!("1,{}", junk),
+                    2 => format!("{},2", junk),
+                    3 => format!("1-{}", junk),
+                    _ => format!("{}-5", junk),
+                };
+                (*u.choose(&[7u8, 8])?, String::new(), fields.join(" "))
+            }
             11 => {
                 // several sub-second fields of different widths in one pattern (the parser adds them
                 // up): digits at their maximum, at the last second of the day and elsewhere
@@ -449,7 +468,7 @@ impl Prop for Mutated {
             }
         };
         // 0..=3 random edits
-        let edits = if family == 7 { 0 } else if family == 10 || family == 11 { u.int_in_range(0..=1u8)? } else { u.int_in_range(0..=3u8)? };
+        let edits = if family == 7 { 0 } else if family == 10 || family == 11 || family == 12 { u.int_in_range(0..=1u8)? } else { u.int_in_range(0..=3u8)? };
         for _ in 0..edits {
             let target_pattern = !pattern.is_empty() && u.ratio(1, 3)?;
             let s: &mut String = if target_pattern { &mut pattern } else { &mut input };
